@@ -81,12 +81,21 @@ class Plane:
 class MeshPlane:
     """Exact classification of an integer mesh against one plane."""
 
-    def __init__(self, V, F, plane):
+    def __init__(self, V, F, plane, band=None):
         self.V = [tuple(Fr(int(c)) for c in v) for v in V]
         self.F = [tuple(int(i) for i in f) for f in F]
         self.plane = plane
         self.dv = [plane.d(v) for v in self.V]
         self.sv = [sgn(d) for d in self.dv]
+        # `band` (a metric distance): vertices off the plane by no more than this are classified
+        # as ON the plane (sign 0, the vertex itself is the intersection point) - the reading of a
+        # code that works with a merge tolerance; `in_band` lists them.  Default: exact signs.
+        self.in_band = []
+        if band is not None:
+            for i, d in enumerate(self.dv):
+                if d != 0 and abs(float(d)) / plane.nlen <= band:
+                    self.sv[i] = 0
+                    self.in_band.append(i)
         self.fsign = [(self.sv[a], self.sv[b], self.sv[c]) for a, b, c in self.F]
 
     # ------------------------------------------------------------ placement facts
@@ -170,14 +179,17 @@ class MeshPlane:
 # ---------------------------------------------------------------- half-space clipping
 
 
-def clip_polygon(poly, plane, keep_on=True):
+def clip_polygon(poly, plane, keep_on=True, band=None):
     """
     Sutherland-Hodgman: part of the convex polygon `poly` (list of rational points) with
-    d >= 0.  A polygon lying entirely in the plane is kept iff keep_on.
+    d >= 0.  A polygon lying entirely in the plane is kept iff keep_on.  With `band` (a metric
+    distance) points no further than that from the plane count as lying on it.
     """
     if not poly:
         return []
     d = [plane.d(p) for p in poly]
+    if band is not None:
+        d = [Fr(0) if abs(float(x)) / plane.nlen <= band else x for x in d]
     if all(x == 0 for x in d):
         return list(poly) if keep_on else []
     out = []
@@ -218,7 +230,7 @@ class SliceOracle:
       volume about a point c = sum over the clipped polygons of fan determinants / 6 (exact)
     """
 
-    def __init__(self, V, F, planes, faces=None):
+    def __init__(self, V, F, planes, faces=None, band=None):
         self.V = [tuple(Fr(int(c)) for c in v) for v in V]
         self.F = [tuple(int(i) for i in f) for f in F]
         self.planes = list(planes)
@@ -238,14 +250,14 @@ class SliceOracle:
             nn = dot(N, N)
             lo = hi = list(tri)
             for pl in self.planes:
-                if all(pl.d(p) == 0 for p in tri):
+                if all(pl.d(p) == 0 or (band is not None and abs(float(pl.d(p))) / pl.nlen <= band) for p in tri):
                     self.coplanar.add(fi)
                 for p in hi:
                     dd = pl.d(p)
                     if dd != 0:
                         self.min_gap = min(self.min_gap, abs(float(dd)) / pl.nlen)
-                lo = clip_polygon(lo, pl, keep_on=False)
-                hi = clip_polygon(hi, pl, keep_on=True)
+                lo = clip_polygon(lo, pl, keep_on=False, band=band)
+                hi = clip_polygon(hi, pl, keep_on=True, band=band)
             self.poly_hi[fi] = hi
             if nn == 0:
                 self.ratio_lo[fi] = self.ratio_hi[fi] = Fr(0)
